@@ -81,9 +81,9 @@ func (w *ExpWorld) Alphabet(tier int) []string {
 	}
 	ops = append(ops, "setp", "wwxp", "uxp", "del", "j.set/r10", "j.set/r30", "b.set/r10", "b.set/r30", "b.touch/0", "adv/5", "adv/15", "adv/40")
 	ops = append(ops, "b.drs/r10") // drop collection B, create it again, write B/k with an expiry
-	if w.cfg.Disk {
-		ops = append(ops, "reopen")
-	}
+	// every handle closed and the bucket opened again (an in-memory bucket lives on in the registry until it
+	// is deleted); "reopen/20": 20 s pass while it is closed, so deadlines fall due with nobody watching
+	ops = append(ops, "reopen", "reopen/20")
 	return ops
 }
 
@@ -243,7 +243,15 @@ func (w *ExpWorld) Apply(op string) (string, []Violation) {
 		vrt.Quiesce()
 		w.h.Close(ctx)
 		vrt.Quiesce()
-		w.open(rosmar.ReOpenExisting)
+		if len(parts) > 1 {
+			vrt.Advance(20 * time.Second)
+			vrt.Quiesce()
+		}
+		if w.cfg.Disk {
+			w.open(rosmar.ReOpenExisting)
+		} else {
+			w.open(rosmar.CreateOrOpen)
+		}
 	}
 	result := "ok"
 	if err != nil {
@@ -317,7 +325,7 @@ func (w *ExpWorld) Apply(op string) (string, []Violation) {
 					found = true
 				}
 			}
-			if !found {
+			if !found && !strings.HasPrefix(op, "reopen") { // (a sweep that runs while the bucket is being reopened precedes the new feed)
 				c.add("C14", "no-event", "%s was expired (row %s) but its feed received no deletion event for it", name, rowString(r))
 			}
 			if r != nil && r.Exp != 0 {
